@@ -145,11 +145,12 @@ type retInfo struct {
 }
 
 type loopInfo struct {
-	header   *ssa.BasicBlock
-	ordinal  int
-	body     map[*ssa.BasicBlock]bool
-	backs    []*ssa.BasicBlock
-	variant0 []*Term // values of the `decreases` expressions at the loop head
+	header    *ssa.BasicBlock
+	ordinal   int
+	body      map[*ssa.BasicBlock]bool
+	backs     []*ssa.BasicBlock
+	variant0  []*Term // values of the `decreases` expressions at the loop head
+	headState *State  // state at the loop head of the iteration being executed
 }
 
 func (x *Exec) oblName(fn, kind, detail string) string {
@@ -858,6 +859,7 @@ func (x *Exec) enterLoop(fr *Frame, li *loopInfo, entry *State, edgeStates []*St
 			x.facts = append(x.facts, Implies(ds.guard, Ge(fr.regs[phi].Term, IntLit(-1))))
 		}
 	}
+	li.headState = ds.clone() // discovery pass: nested loops may refer to this loop's head (athead)
 	func() {
 		x.execBlockGuarded(fr, h, ds)
 		x.runBlocks(fr, fr.order, li.body, h, nil)
@@ -1077,6 +1079,7 @@ func (x *Exec) enterLoop(fr *Frame, li *loopInfo, entry *State, edgeStates []*St
 	for _, inv := range invs {
 		x.assume(st, x.evalInvariant(fr, li, inv, st))
 	}
+	li.headState = st.clone() // for `step` clauses (old() = this state)
 	// loop variants: remember their value at the loop head
 	if c := x.contractFor(fr.fn); c != nil && len(c.Decreases[li.ordinal]) > 0 {
 		li.variant0 = nil
@@ -1170,6 +1173,13 @@ func (x *Exec) execBlock(fr *Frame, b *ssa.BasicBlock, st *State) {
 			for _, inv := range x.loopInvariants(fr, li) {
 				t := x.evalInvariant(fr, li, inv, es)
 				x.oblige(fr, es, "inv.preserved", fmt.Sprintf("loop%d", li.ordinal), labelOr(inv.Label, ""), t, s.Instrs[0].Pos(), inv.Src)
+			}
+			if c := x.contractFor(fr.fn); c != nil && li.headState != nil {
+				for _, sc := range c.Steps[li.ordinal] {
+					env := &SpecEnv{x: x, vars: map[string]*Value{}, cur: es, old: li.headState, pkg: x.pkgOfFn(fr.fn), fr: fr, li: li, at: li.header, stepOld: true}
+					t := x.guardedEval(func() *Term { return env.evalBool(sc.E) }, c, sc)
+					x.oblige(fr, es, "inv.preserved", fmt.Sprintf("loop%d", li.ordinal), "step:"+labelOr(sc.Label, ""), t, s.Instrs[0].Pos(), sc.Src)
+				}
 			}
 			if c := x.contractFor(fr.fn); c != nil && len(li.variant0) == len(c.Decreases[li.ordinal]) {
 				for k, d := range c.Decreases[li.ordinal] {
